@@ -45,7 +45,7 @@ def cases(tier, seed):
                 yield {"kind": "algebra", "steps": list(sub), "cont": cont, "order": order, "rel": rel,
                        "cutoffs": CUTOFFS, "np_cutoff": i % 2 == 0}
     rng = np.random.default_rng([seed, 2])
-    nrand = 1500 if tier == "quick" else 40000
+    nrand = 1500 if tier == "quick" else 150000
     for _ in range(nrand):
         k = int(rng.integers(1, 12))
         mag = int(rng.choice([10, 1000, 10 ** 6]))
@@ -60,12 +60,12 @@ def cases(tier, seed):
         ("strlist", "type"), ("float-scalar", "type"), ("dict", "type"), ("nonbool-relative", "type"),
         ("dup-index", "dup"), ("empty-check_fh", "empty"), ("abs-enforce-relative", "relative"),
     ]
-    reps = 3 if tier == "quick" else 40
+    reps = 3 if tier == "quick" else 100
     for r in range(reps):
         for name, cls in bad:
             yield {"kind": "reject", "name": name, "cls": cls, "salt": r, "base": [int(x) for x in rng.integers(-5, 9, size=3)]}
     # cache behaviour: equal-valued distinct objects and repeated calls
-    for r in range(20 if tier == "quick" else 400):
+    for r in range(20 if tier == "quick" else 2000):
         steps = sorted(set(int(x) for x in rng.integers(-6, 12, size=4)))
         yield {"kind": "cache", "steps": steps, "cutoffs": [int(x) for x in rng.integers(-20, 60, size=4)]}
 
@@ -124,8 +124,17 @@ def run_case(case, ctx):
         ctx.check("stored", isinstance(fh2, FH) and _ints(fh2) == S and fh2.is_relative == case["rel"], "stored:check_fh:not-sorted-set-of-input",
                   "check_fh does not return the horizon of the given steps", given=given, container=cont, stored=_ints(fh2) if isinstance(fh2, FH) else repr(fh2)[:60])
     ok, fh2 = ctx.call("check_fh:valid-input-rejected", check_fh, fh)
-    for c in case["cutoffs"]:
+    for ci, c in enumerate(case["cutoffs"]):
         cc = np.int64(c) if case["np_cutoff"] else int(c)
+        if ci % 2 == 0 and hasattr(fh, "to_absolute_int"):
+            # positions counted from another origin (used by the trend forecaster); asked first, so that everything below runs on a
+            # horizon object that has already answered it
+            start = c - 7 - ci
+            ok, ai_ = ctx.call("to_absolute_int:exception", fh.to_absolute_int, start, cc)
+            if ok:
+                want = [(c + s_ if case["rel"] else s_) - start for s_ in S]
+                ctx.check("to_absolute", _ints(ai_) == want, "to_absolute_int:not-absolute-minus-start", "to_absolute_int(start, cutoff) != absolute steps - start", got=_ints(ai_), expected=want)
+            ctx.check("stored", _ints(fh) == S, "stored:changed-by-a-conversion", "a conversion changed the horizon's own values", stored=_ints(fh), expected=S)
         if case["rel"]:
             rel = S
             ok, a = ctx.call("to_absolute:exception", fh.to_absolute, cc)
@@ -177,6 +186,7 @@ def run_case(case, ctx):
         if ok:
             ctx.check("indexer", _ints(ix2) == [r_ - rel[0] for r_ in rel], "indexer:from-first-wrong",
                       "to_indexer(from_cutoff=False) != steps - first step", rel=rel, got=_ints(ix2))
+    ctx.check("stored", _ints(fh) == S, "stored:changed-by-a-conversion", "a conversion changed the horizon's own values", stored=_ints(fh), expected=S)
     ctx.event(steps=S, cont=cont, rel=case["rel"], given=given)
     relall = S if case["rel"] else [s - case["cutoffs"][0] for s in S]
     if len(S) >= 2 and (min(relall) <= 0 < max(relall) or 0 in relall or given != S):
